@@ -23,6 +23,9 @@ func checkC07(r *Report, p *Program) {
 	r07_5(r, p)
 	lostUpdates(r, p, "R07.6")
 	r07_6b(r, p)
+	// claims that are filtered are also what gets persisted (shared with C09); revisions' parents are private copies (C17)
+	r09_5(r, p)
+	r17_1(r, p)
 }
 
 func rolloutLoop(r *Report, p *Program, rule string) (*ssa.Function, *engine.RangeLoop, *engine.CallSite) {
@@ -169,7 +172,9 @@ func r07_3(r *Report, p *Program) {
 				continue
 			}
 			// a nil return after having looked at a condition must have found it and matched status/reason where given
-			if pa.Has(true, func(a string) bool { return strings.HasSuffix(a, "GetStatusCondition)(call(unstructured.Unstructured.UnstructuredContent)(p1), new<v1alpha1.ChildUpdateConditionCheck>.Type)#0 == nil)") }) {
+			if pa.Has(true, func(a string) bool {
+				return strings.HasSuffix(a, "GetStatusCondition)(call(unstructured.Unstructured.UnstructuredContent)(p1), new<v1alpha1.ChildUpdateConditionCheck>.Type)#0 == nil)")
+			}) {
 				ok, why = false, "a missing condition passes the status check"
 			}
 			if pa.Has(false, func(a string) bool { return strings.Contains(a, "#0.Status == ") }) && !pa.Has(true, func(a string) bool { return strings.HasSuffix(a, ".Status == nil)") }) {
@@ -188,6 +193,27 @@ func r07_3(r *Report, p *Program) {
 					}
 				}
 			}
+		}
+		// per configured check: an iteration that goes on to the next check has found the
+		// condition of that check's type on the child (whatever else the check asks for)
+		if loops := engine.RangeLoops(c); len(loops) == 1 {
+			l := loops[0]
+			ips, err := engine.EnumPaths(c, engine.EnumOpts{Start: l.Body, Leave: func(b *ssa.BasicBlock) bool { return b == l.Header || b == l.Exit }})
+			if err != nil {
+				ok, why = false, err.Error()
+			}
+			for _, pa := range ips {
+				if _, isR := pa.End.(*ssa.Return); isR {
+					continue
+				}
+				if !pa.Has(false, func(a string) bool {
+					return strings.Contains(a, "GetStatusCondition)(call(unstructured.Unstructured.UnstructuredContent)(p1), ") && strings.HasSuffix(a, ".Type)#0 == nil)")
+				}) {
+					ok, why = false, "a configured check is passed without establishing that the child has a condition of that type (path: "+pa.Cond()+"): a child that has not reported the condition yet lets the rollout go on"
+				}
+			}
+		} else {
+			ok, why = false, "expected exactly one loop over the configured condition checks"
 		}
 		r.Check(rule, FK(c), p.Pos(c.Pos()), ok, "error on missing condition, status or reason mismatch; all conditions checked", why)
 	}
@@ -403,7 +429,9 @@ func r07_6b(r *Report, p *Program) {
 			for _, in := range b.Instrs {
 				if st, isS := in.(*ssa.Store); isS {
 					if _, isIA := st.Addr.(*ssa.IndexAddr); isIA && engine.DependsOnCall(st.Val, engine.HasSuffix("object.StatusCondition.Object"), nil) != nil {
-						wq := unguarded(f, nil, in, func(l Lit) bool { return l.Pos && strings.Contains(l.Atom, `["type"]`) && strings.Contains(l.Atom, "p1.Type") })
+						wq := unguarded(f, nil, in, func(l Lit) bool {
+							return l.Pos && strings.Contains(l.Atom, `["type"]`) && strings.Contains(l.Atom, "p1.Type")
+						})
 						okU = wq == nil
 					}
 				}
